@@ -518,6 +518,12 @@ func NetspocRule(chain string, r Rule, rng *rand.Rand) string {
 			w = append(w, opt, a)
 		}
 	}
+	// Option order is free: an option without argument may stand directly
+	// in front of a negated option ("-f ! -s NET").
+	fragEarly := r.Frag && pick(2) == 0
+	if fragEarly {
+		w = append(w, "-f")
+	}
 	addr("-s", r.Src, r.SrcNeg)
 	addr("-d", r.Dst, r.DstNeg)
 	if r.Proto != "" {
@@ -562,7 +568,7 @@ func NetspocRule(chain string, r Rule, rng *rand.Rand) string {
 		}
 		w = append(w, opt, p)
 	}
-	if r.Frag {
+	if r.Frag && !fragEarly {
 		w = append(w, "-f")
 	}
 	ports("--sport", r.Sport)
